@@ -58,6 +58,27 @@ func (v *visitor) Enter(n js.INode) js.IVisitor {
 }
 func (v *visitor) Exit(n js.INode) { v.sb.WriteString(">") }
 
+// editor rewrites every literal of a tree it owns: a new slice, or the bytes in place.
+type editor struct {
+	inPlace bool
+	n       int
+}
+
+func (e *editor) Enter(n js.INode) js.IVisitor {
+	if lit, ok := n.(*js.LiteralExpr); ok {
+		e.n++
+		if e.inPlace {
+			for i := range lit.Data {
+				lit.Data[i] = 'X'
+			}
+		} else {
+			lit.Data = []byte(fmt.Sprintf("L%d", e.n))
+		}
+	}
+	return e
+}
+func (e *editor) Exit(n js.INode) {}
+
 func tokenLoop(sb *strings.Builder, step func(), next func() (int, string, bool)) {
 	for i := 0; i < 10000; i++ {
 		tt, s, more := next()
@@ -624,6 +645,27 @@ var All = []Body{
 			fmt.Fprintf(&sb, "%q %v %v|", s, err, err != nil && errors.Is(err, js.ErrInvalidJSON))
 			step()
 		}
+		return sb.String()
+	}},
+	// ---- a consumer that edits its own tree (as a minifier does): literals, names, operators ----
+	{"js-ast-edit", true, func(v int, step func()) string {
+		var sb strings.Builder
+		ast, err := js.Parse(parse.NewInputBytes(pick(v,
+			"var a = true, b = null; if (a === false) { this.c = b ?? 'x' + 1 } else { a = !0 }",
+			"function f(p) { return p ? true : this === null || false }; let q = [true, false, null, 1e3, 'str', /re/g, `t`]")), js.Options{})
+		if err != nil {
+			return "error " + err.Error()
+		}
+		before := ast.JSString()
+		step()
+		ed := &editor{inPlace: v%2 == 1}
+		js.Walk(ed, ast)
+		step()
+		for _, dv := range ast.BlockStmt.Scope.Declared {
+			dv.Data = append([]byte("r_"), dv.Data...)
+		}
+		step()
+		fmt.Fprintf(&sb, "%q -> %q (%d literals)", before, ast.JSString(), ed.n)
 		return sb.String()
 	}},
 	// ---- two instances alive at the same time in one goroutine: what the first one handed out must not change ----
